@@ -913,7 +913,6 @@ func literalMapOf(v ssa.Value) *ssa.MakeMap {
 	return mm
 }
 
-
 // wrappedError: v is fmt.Errorf(format, args…) whose format has exactly one %w and whose argument list holds exactly
 // one value of type error; that value.
 func wrappedError(v ssa.Value) ssa.Value {
@@ -973,7 +972,6 @@ func wrappedError(v ssa.Value) ssa.Value {
 	return found
 }
 
-
 // varargsOfLibraryCall: the array is the argument list of a call of a function outside the module (fmt.Errorf, …) —
 // not of the builtin append, whose element stores are what the encoders' byte accounting reads.
 func varargsOfLibraryCall(a *ssa.Alloc) bool {
@@ -995,7 +993,6 @@ func varargsOfLibraryCall(a *ssa.Alloc) bool {
 	}
 	return false
 }
-
 
 // libName: the name a library function is known by in the summaries. Instances of the generic helpers of the
 // standard library answer to the classic function they stand for — slices.Sort on []int is sort.Ints, on []float64
@@ -1023,7 +1020,6 @@ func libName(f *ssa.Function) string {
 	}
 	return path + "." + name
 }
-
 
 // isSyncCall: a Lock / Unlock / RLock / RUnlock (…) of a sync.Mutex or sync.RWMutex. Mutual exclusion changes nothing
 // any property speaks of (none quantifies over concurrent use): such calls — also deferred — are no effects, a mutex
@@ -1064,7 +1060,6 @@ func onlySyncDefers(f *ssa.Function) bool {
 	}
 	return f.Recover == nil
 }
-
 
 // sameBlockStore: the value of the last store to the local cell a that precedes the load ld in ld's block, provided a
 // is only ever stored to and loaded from directly.
